@@ -27,10 +27,33 @@ def main():
         sys.setrecursionlimit(20000)
         with warnings.catch_warnings():
             warnings.simplefilter('ignore')
+            from .viol import Violation, innermost_dd_frame
+            todo = spec
             if spec.get('kind') == '__replay__':
-                mod.replay_into(spec['case'], out)
-            else:
-                mod.run(spec, out)
+                if spec['case'].get('kind') == '__shard__':
+                    todo = spec['case']['spec']
+                else:
+                    todo = None
+            try:
+                if todo is None:
+                    mod.replay_into(spec['case'], out)
+                else:
+                    mod.run(todo, out)
+            except Violation as v:
+                # a violation outside any per-case guard (e.g. while
+                # setting up a shard): reported against the whole shard
+                out.fail('shard.' + v.what,
+                         dict(kind='__shard__', spec=todo or spec),
+                         v.detail, innermost_dd_frame(v))
+            except RecursionError:
+                raise
+            except Exception as e:
+                fr = innermost_dd_frame(e)
+                if fr == 'harness':
+                    raise
+                out.fail(f'shard.exception.{type(e).__name__}',
+                         dict(kind='__shard__', spec=todo or spec),
+                         repr(e)[:300], fr)
         res = out.result()
     except BaseException:
         res = dict(error=traceback.format_exc())
